@@ -45,6 +45,21 @@ def run(prog, R):
     want = {ITEM: ["oq3_parser::grammar::items::source_file_contents"], STMT: ["oq3_parser::grammar::expressions::expr_block_statements", "oq3_parser::grammar::items::block_or_statement"]}
     for f in (ITEM, STMT):
         R.ob("C16.2-statement-loops", short(f), callers[f] == want[f], prog.body(f).at, f"callers of {short(f)}: {[short(x) for x in callers[f]]} (expected {[short(x) for x in want[f]]})")
+    # the statement loops themselves parse nothing: whatever they consumed outside item/stmt would be parsed by position
+    # in the sequence (first statement of the file, first of a block) and not by the statement dispatch
+    LOOKAHEAD = ("Parser::at", "Parser::at_ts", "Parser::nth", "Parser::nth_at", "Parser::current", "Parser::error")
+    loops = {"oq3_parser::grammar::items::source_file_contents": {ITEM, STMT},
+             "oq3_parser::grammar::expressions::expr_block_statements": {ITEM, STMT},
+             "oq3_parser::grammar::items::block_or_statement": {ITEM, STMT, "oq3_parser::grammar::expressions::atom::block_expr"}}
+    for f, allowed in loops.items():
+        b = prog.body(f)
+        if b is None:
+            R.ob("ANCHOR", f, False)
+            continue
+        other = sorted({c for _, t in b.calls() for c in [b.callee_of(t) or "?"] if (c.startswith("oq3_parser") or c.startswith("<oq3_parser") or c == "?") and c not in allowed and not c.endswith(LOOKAHEAD)})
+        R.ob("C16.2-statement-loops-only-dispatch", short(f), not other, b.at,
+             "the loop only looks ahead and calls the statement entry points" if not other else
+             f"{short(f)} itself calls {[short(x) for x in other]}: a statement parsed by the loop is recognised only at that position of the sequence (e.g. as the first statement), while the same statement elsewhere goes through `stmt`")
     import C01
     C01.lookahead_relative(prog, R, "C16.4-position-independent-lookahead")
     C01.composite_jointness(prog, R, "C16.4-composite-lookahead")
@@ -63,6 +78,38 @@ def run(prog, R):
              "next token after the block statement is " + k if not bad else
              f"`{{ }} {k} ..` in statement position: some outcome leaves {bad[:2]} as the next token instead of {k}: the token after a statement-level block is consumed as part of the same statement (statements merge)")
     R.floor("block statement probes", nb, 80)
+    # ---- C16.6 the text of a statement node does not depend on the trivia before it: the tree builder attaches
+    # leading trivia to a node only for kinds n_attached_trivias answers non-zero for; for every kind the grammar
+    # completes the answer is the constant 0 (a comment ending the previous line would otherwise become part of the
+    # next statement's text in a sequence, but not when that statement is parsed on its own)
+    import shapes
+    from sym import SymExec, deep_strip
+    SK = "oq3_parser::syntax_kind::syntax_kind_enum::SyntaxKind"
+    nb_ = prog.body("oq3_parser::shortcuts::n_attached_trivias")
+    kinds = set()
+    for b in prog.by_crate["oq3_parser"]:
+        for bi, t in b.calls():
+            if (b.callee_of(t) or "").endswith("Marker::complete"):
+                kinds |= shapes.completed_kinds(prog, b, (bi, t))
+    R.floor("node kinds completed by the grammar", len(kinds - {"?"}), 70)
+    if nb_ is None or nb_.local_name(1) != "kind":
+        R.ob("ANCHOR", "oq3_parser::shortcuts::n_attached_trivias(kind, ..)", False)
+    else:
+        vs = {n for n, d in prog.enum_variants(SK) or []}
+        bad = []
+        for K in sorted(kinds):
+            if K not in vs:
+                bad.append(K + " (kind not resolved)")
+                continue
+            se = SymExec(prog, nb_, max_visits=1, max_paths=500)
+            env = se.init_env()
+            env[1] = ("adt", SK + "::" + K, ())
+            rs = {deep_strip(p.env.get(0)) for p in se.paths(env) if "__diverged__" not in p.env}
+            if rs != {("c", "usize", 0)}:
+                bad.append(K)
+        R.ob("C16.6-no-leading-trivia-attachment", "n_attached_trivias", not bad, nb_.at,
+             f"0 for all {len(kinds)} node kinds the grammar completes" if not bad else
+             f"leading trivia can be attached to nodes of kind {bad}: a comment that ends the previous statement's line becomes part of this statement's text in a sequence, while the statement parsed on its own does not contain it")
     # ---- C16.5 an assignment statement that has consumed its terminating semicolon ends there: in expr_bp no path
     # from `p.expect(SEMICOLON)` (statement-level assignment) leads back to the operator loop's `current_op`
     eb = prog.body("oq3_parser::grammar::expressions::expr_bp")
